@@ -162,7 +162,9 @@ def build(ch):
     """-> (source label, culture, query, reference)"""
     S.pop('only', None)
     part = ch.pick('part', ('specs', 'tokens-k2', 'tokens-k3', 'entity-pairs', 'entity-triples', 'modifier-stacks', 'unit-chains',
-                            'normaliser'))
+                            'two-threads', 'normaliser'))
+    if part == 'two-threads':
+        return part, None, None, None
     if part == 'normaliser':
         return part, None, None, None
     cul = ch.pick('culture', S['cultures'])
@@ -249,3 +251,26 @@ def overlap_error(ents):
         if s2 <= e1:
             return 'overlap', (max(s1, s2, 0), min(e1, e2))
     return None
+
+
+TWO_THREAD_DRIVERS = [
+    ('Number', 'PercentModel', 'calls', 'under 75 percent of cases', 'about 25 percent today'),
+    ('Number', 'NumberModel', 'calls', 'twenty one and 3,000', 'a 1.5 or two'),
+    ('NumberWithUnit', 'DimensionModel', 'coarse', 'it is 5 km away', 'add 3 kg more'),
+    ('Sequence', 'IpAddressModel', 'calls', 'ping 1.2.3.4 now', 'use ::1 here'),
+    ('DateTime', 'DateTimeModel', 'coarse', 'see you nov 7 at 3pm', 'for 3 days from monday'),
+]
+
+
+def two_threads(ch):
+    """Two callers with different queries of the same shape share one cached model: every schedule with <= 1 preemption.
+    Returns (driver, queries, plan, per-thread entity lists or error strings, per-query sequential entity lists)."""
+    import os
+    from vmc import env, sched
+    rec, mt, gran, qa, qb = ch.pick('driver', TWO_THREAD_DRIVERS)
+    alone = {q: registry.parse(rec, mt, 'en-us', q, registry.REF) for q in (qa, qb)}
+    plan, ex = sched.pick_and_run(ch, S.setdefault('counts', {}), (mt, qa), os.path.join(env.REPO, 'Python', 'libraries'), gran, 1,
+                                  [lambda q=qa: registry.parse(rec, mt, 'en-us', q, registry.REF),
+                                   lambda q=qb: registry.parse(rec, mt, 'en-us', q, registry.REF)], chunk=60)
+    got = [ex.results[i] if ex.errors[i] is None else 'EXC ' + ex.errors[i] for i in (0, 1)]
+    return (rec, mt), (qa, qb), plan, got, alone
